@@ -168,6 +168,20 @@ def drain_rules(facts, rep):
         rep.violation(rule, "drain-until-eof", where(dr, dr.span), "Drop for ZipFile no longer contains exactly one drain loop")
     fs = find_switch_on(dr, lambda d: d[0] == "discr" and d[1][0] == "field" and d[1][2] == "data")
     ok &= rep.check(bool(fs), rule, "drain-iff-owned", where(dr, dr.span), "drain only for streamed (Cow::Owned) entries", "the Owned/Borrowed distinction disappeared")
+    # ... and for EVERY streamed entry: what has to be skipped is the compressed payload, whose length no metadata test can stand in
+    # for (an empty entry still has a non-empty deflate stream) -- a path that leaves drop() for an Owned entry without having
+    # read from the stream leaves the stream inside the entry
+    skipped, owned = [], 0
+    for p in paths(dr, max_loop=1):
+        dv = [v_ for a_, v_ in p["decisions"] if a_ != "#iter" and re.search(r"^discr\(self\.data\)$", a_)]
+        if not dv or dv[0] != 1 or p["end"] != "return":
+            continue
+        owned += 1
+        if not any(e[1] == "std::io::Read::read" for e in p["effects"]):
+            skipped.append([(a_[:40], v_) for a_, v_ in p["decisions"] if not a_.startswith("discr(self.data")][:3])
+    ok &= rep.check(owned >= 1 and not skipped, rule, "drain-every-owned", where(dr, dr.span), "every path of drop() for a streamed entry reads the stream (until Ok(0))",
+                    "drop() can return for a streamed entry without draining it (path decided by %s): the stream stays inside the entry's "
+                    "compressed payload and the next header is misparsed" % (skipped[:2] or "no Owned path found"))
     return ok
 
 
@@ -246,6 +260,30 @@ def seq_rules(facts, rep):
     ok &= rep.check(good, rule, "signature-dispatch", where(st, st.span), "local signature => entry, central signature => end of entries, else error",
                     "entry reader no longer dispatches local => entry / central => Ok(None) / anything else => error (%s)" % {k: (len(v), all(v)) for k, v in rows.items()})
     pc = facts.one(r"^read::stream::ZipStreamReader::<R>::parse_central_directory$")
+    # dispatch of the directory walker: central signature => record; ANY other signature ends the directory cleanly (what follows the
+    # records is the classic end record, or the ZIP64 end record + locator in a large archive -- none of them is an error)
+    rowsc = {"central": [], "other": []}
+    for p in paths(pc):
+        eq, excl = None, set()
+        for a_, v_ in p["decisions"]:
+            if a_ != "#iter" and re.search(r"^ok\(ReadBytesExt::read_u32\(", a_):
+                if isinstance(v_, tuple):
+                    excl |= set(v_[1])
+                elif eq is None:
+                    eq = v_
+        o = outcome(p)
+        body = any(e[1].endswith("central_header_to_zip_file_inner") for e in p["effects"])
+        nreads = len([e for e in p["effects"] if re.search(r"ReadBytesExt::read_|Read::read_exact$", e[1])])
+        if eq == CDH:
+            rowsc["central"].append(body)
+        elif eq is None and not excl and nreads <= 1 and o[0] in ("Err", "ErrProp"):
+            continue        # the signature read itself failed
+        else:
+            rowsc["other"].append((eq is not None or CDH in excl) and not body and o[0] == "Ok" and o[1] is not None and o[1][0] == "agg" and o[1][1] == "adt:None" and nreads == 1)
+    good = all(rowsc[k] and all(rowsc[k]) for k in rowsc)
+    ok &= rep.check(good, rule, "central-dispatch", where(pc, pc.span), "central signature => record, every other signature => Ok(None) (end of the directory)",
+                    "the directory walker no longer ends cleanly on every non-central signature (%s): an archive whose records are followed by the ZIP64 "
+                    "end record is reported as damaged after all entries were delivered" % {k: (len(v), all(v)) for k, v in rowsc.items()})
     seqs = c.sequences(pc)
     full = [s for s in seqs if len([e for e in s if e["kind"] == "r"]) > 1]
     good = bool(full) and all([e for e in s if e["kind"] == "r"][0]["width"] == 4 for s in full) and bool(calls_matching(pc, r"central_header_to_zip_file_inner$"))
@@ -313,6 +351,8 @@ def run(ctx, rep):
     drain_rules(facts, rep)
     seq_rules(facts, rep)
     extra_tolerance_rules(facts, rep)
+    from rules.C19 import flag_decode_rules
+    flag_decode_rules(facts, rep)      # reported as C10/C19-FLAG: the stream's local-header parser picks the name decoder by bit 11 exactly as the central parser does
     rep.floor("C10-EXTRA", 2)
     rep.floor("C10-CODEC", 30)
     rep.floor("C10-DRAIN", 5)
